@@ -138,3 +138,53 @@ Proof.
     assert (dh_density d / 1000 * ((75 # 10) * d_area d) <= 1 * ((75 # 10) * d_area d)) by (apply Qmult_le_compat_r; assumption).
     lra.
 Qed.
+
+(* surface-plant capital cost *)
+Lemma plant_cost_cases p :
+  (p_fixed_valid p = true -> plant_cost p = p_fixed p) /\
+  (p_fixed_valid p = false -> p_kind p <> PPower ->
+     plant_cost p == q112 * q115 * p_adj p * (250 # 1000000) * p_max_he p * 1000 + equipment_cost p) /\
+  (p_fixed_valid p = false -> p_kind p = PPower ->
+     plant_cost p == q112 * q115 * p_adj p * p_corr p * (102 # 100) * (110 # 100)
+                     + (if p_cogen p then q112 * q115 * p_adj p * (250 # 1000000) * p_max_hp_over_eff p * 1000 else 0)).
+Proof.
+  unfold plant_cost, capex_elec_plant, capex_heat_plant, direct_use_cost, q1288. repeat split.
+  - intros H. now rewrite H.
+  - intros H Hk. rewrite H. destruct (p_kind p); try congruence; reflexivity.
+  - intros H Hk. rewrite H, Hk. destruct (p_cogen p); ring.
+Qed.
+
+(* with a power plant the electricity and heat parts add up to the plant cost, and the allocation ratio (when not supplied)
+   is the electricity part over the total, so the two shares of C01 add up to the whole *)
+Lemma plant_split p : p_kind p = PPower ->
+  capex_elec_plant p + capex_heat_plant p == plant_cost p /\
+  (p_fixed_valid p = false -> p_ratio_provided p = false -> ~ plant_cost p == 0 ->
+     plant_ratio p * plant_cost p == capex_elec_plant p).
+Proof.
+  intros Hk. split.
+  - unfold plant_cost, capex_elec_plant, capex_heat_plant. rewrite Hk. destruct (p_fixed_valid p); ring.
+  - intros Hf Hr Hnz. unfold plant_ratio. rewrite Hf, Hr. simpl. field. exact Hnz.
+Qed.
+
+(* the user-supplied equipment cost is used verbatim, including a supplied 0 (the -1 "not provided" sentinel is the
+   only value replaced by the correlation) *)
+Lemma equipment_verbatim p : p_eq_provided p = true -> (p_kind p = PChiller \/ p_kind p = PHeatPump) -> equipment_cost p = p_eq_in p.
+Proof. intros H [Hk | Hk]; unfold equipment_cost; rewrite Hk, H; reflexivity. Qed.
+
+(* plant cost is non-decreasing in its adjustment factor when the correlation and the heat loads are non-negative *)
+Lemma plant_cost_mono_adj p adj adj' : p_fixed_valid p = false -> 0 <= p_corr p -> 0 <= p_max_he p -> 0 <= p_max_hp_over_eff p ->
+  adj <= adj' ->
+  plant_cost {| p_kind := p_kind p; p_cogen := p_cogen p; p_fixed_valid := p_fixed_valid p; p_fixed := p_fixed p; p_adj := adj;
+                p_max_he := p_max_he p; p_eq_provided := p_eq_provided p; p_eq_in := p_eq_in p; p_max_eq := p_max_eq p;
+                p_max_peaking := p_max_peaking p; p_corr := p_corr p; p_max_hp_over_eff := p_max_hp_over_eff p;
+                p_ratio_provided := p_ratio_provided p; p_ratio_in := p_ratio_in p |}
+  <= plant_cost {| p_kind := p_kind p; p_cogen := p_cogen p; p_fixed_valid := p_fixed_valid p; p_fixed := p_fixed p; p_adj := adj';
+                p_max_he := p_max_he p; p_eq_provided := p_eq_provided p; p_eq_in := p_eq_in p; p_max_eq := p_max_eq p;
+                p_max_peaking := p_max_peaking p; p_corr := p_corr p; p_max_hp_over_eff := p_max_hp_over_eff p;
+                p_ratio_provided := p_ratio_provided p; p_ratio_in := p_ratio_in p |}.
+Proof.
+  intros Hf Hc Hh Hm Ha. unfold plant_cost, capex_elec_plant, capex_heat_plant, direct_use_cost, equipment_cost, q1288, q112, q115.
+  cbn [p_kind p_cogen p_fixed_valid p_fixed p_adj p_max_he p_eq_provided p_eq_in p_max_eq p_max_peaking p_corr p_max_hp_over_eff
+       p_ratio_provided p_ratio_in].
+  rewrite Hf. destruct (p_kind p); try destruct (p_eq_provided p); try destruct (p_cogen p); nra.
+Qed.
